@@ -63,9 +63,28 @@ pub fn arrangements(n: usize) -> Vec<[Vec<usize>; 3]> {
 }
 
 pub fn build_world(coin: &'static refmodel::coins::Coin, chain: &[Block], first_height: u64, l: &Layout) -> World {
+    build_world_with_gap(coin, chain, first_height, l, None)
+}
+
+/// A block of fixed serialised size (coinbase only, fixed-length scripts).
+pub fn uniform_block(height: u64, prev: [u8; 32]) -> Block {
+    let cb = refmodel::chain::coinbase(height, 0x55, vec![refmodel::chain::pay((height % 200) as u8, 50 * refmodel::chain::COIN_VALUE)]);
+    Block::build(1, prev, 1_600_000_000 + height as u32, 0x1d00ffff, height as u32, vec![cb])
+}
+
+pub fn uniform_chain(n: usize) -> refmodel::chain::ChainBuilder {
+    let mut cb = refmodel::chain::ChainBuilder::at(refmodel::coins::coin("bitcoin"), 0);
+    for h in 0..n as u64 {
+        let prev = cb.tip_hash();
+        cb.blocks.push(uniform_block(h, prev));
+    }
+    cb
+}
+
+pub fn build_world_with_gap(coin: &'static refmodel::coins::Coin, chain: &[Block], first_height: u64, l: &Layout, gap_block: Option<Block>) -> World {
     let mut w = World::new(coin);
     let mut recs: Vec<Option<IndexRec>> = vec![None; chain.len()];
-    let foreign = dependent_chain(coin, 900, 1).blocks[0].clone();
+    let foreign = gap_block.unwrap_or_else(|| dependent_chain(coin, 900, 1).blocks[0].clone());
     for (fno, name, blocks) in &l.files {
         {
             let f = w.file(*fno);
@@ -232,11 +251,53 @@ pub fn run() -> Report {
     let btc = coin("bitcoin");
     let ls = layouts(n, thorough);
     rep.rule = format!("all n!*C(n+2,2) ordered arrangements of n={} blocks into <=3 files x gap kind (none / zeros / garbage with fake magic / unindexed block) x index storage form (log, compacted table, table+log overwrite, reopen), per-block gap products, file-number / data-offset VarInt boundary sweeps (sparse >4GiB offsets), file-name padding, junk index keys, foreign directory entries; every layout of the same logical chain must give the model's csvdump output (hence identical across layouts); non-trivial = distinct layout", n);
-    rep.bound = json!({"blocks": n, "layouts": ls.len()});
+    rep.bound = json!({"blocks": n, "layouts": ls.len(), "uniform_size_chain_layouts": arrangements(n + 1).len() * 2});
     rep.not_covered = vec!["two file names parsing to the same number (ambiguous)".into(), "symlinked blk files".into(), "hundreds of files (C17 covers 200/1200 files)".into()];
     let chain = dependent_chain(btc, 0, n);
     let all = chain.mblocks();
     let root = refmodel::world::scratch_root();
+    // second logical chain: all blocks (and the unindexed gap block) have the SAME serialised size, so that data offsets
+    // coincide across files (block h+1 sits in another file exactly where "the byte after block h" would be):
+    // any shortcut keyed on offsets without the file number shows up
+    let uni = uniform_chain(n + 1);
+    let uni_layouts: Vec<Layout> = {
+        let mut v = Vec::new();
+        for (ai, arr) in arrangements(n + 1).into_iter().enumerate() {
+            for (gi, g) in [Gap::None, Gap::UnindexedBlock].iter().enumerate() {
+                let files = (0..3).map(|f| (f as u64, None, arr[f].iter().map(|b| (*b, g.clone(), None)).collect())).collect();
+                v.push(Layout { files, index_form: (ai % 2) as u8, junk_keys: false, foreign_entries: false, label: format!("uniform#{}/gap{}", ai, gi) });
+            }
+        }
+        v
+    };
+    let uni_all = uni.mblocks();
+    let uparts = par_fold(
+        &uni_layouts,
+        || Report::new("C03", "e1"),
+        |w, _i, l, acc| {
+            let wk = Worker::new(&root, w);
+            let world = build_world_with_gap(btc, &uni.blocks, 0, l, Some(uniform_block(99, [0x99; 32])));
+            let spec = RunSpec::new("bitcoin", "csvdump");
+            let r = match wk.world_run(&world, &spec) {
+                Ok(r) => r,
+                Err(m) => return acc.machinery(m),
+            };
+            acc.states += 1;
+            acc.transitions += 1;
+            let (s, e) = (r.declared_start().unwrap_or(0), r.declared_end().unwrap_or(n as u64));
+            let bad = check_csvdump(&r, btc, &in_range(&uni_all, s, e), s, e);
+            acc.nontrivial.insert(h8(format!("{:?}", l).as_bytes()));
+            acc.count("uniform-size-chain", 1);
+            if e != n as u64 {
+                acc.disagree("range-not-whole-chain", format!("{}: declared range {}..{}", l.label, s, e), replay_case(&world, &spec, json!({}), &r, &wk.dir));
+            } else if let Some((sig, detail)) = bad.into_iter().next() {
+                acc.disagree(&format!("uniform-size-chain:{}", sig), format!("{}: {}", l.label, detail), replay_case(&world, &spec, expected_brief("csvdump == model of the logical chain", s, e), &r, &wk.dir));
+            }
+        },
+    );
+    for p in uparts {
+        rep.merge(p);
+    }
     let parts = par_fold(
         &ls,
         || Report::new("C03", "e1"),
